@@ -163,6 +163,9 @@ func (e *c05Env) oneTree(tree *c05Node, rng *vh.Rand, level int) error {
 			}
 		}
 	}
+	if level >= 1 {
+		e.routeFifoClean(tree, srcDir, src, cliBytes) // last: it removes the fifos from the source tree
+	}
 	return nil
 }
 
